@@ -306,7 +306,7 @@ class ExprMixin(object):
         if rt is not None:
           yield st, self.pure_app('%s.__getitem__' % base.ty.name, [base, idx], rt, st)
           return
-    if getattr(self, 'mode', 'vc') == 'event' and isinstance(base, VRef) and base.ty.kind in ('any', 'opt', 'union', 'obj', 'callable'):
+    if getattr(self, 'mode', 'vc') == 'event' and (isinstance(base, VBound) or isinstance(base, VRef) and base.ty.kind in ('any', 'opt', 'union', 'obj', 'callable')):
       # an opaque container: indexing is an observable action of that object
       yield from self.call_opaque(VBound(base, '__getitem__'), [idx], {}, st)
       return
@@ -328,6 +328,10 @@ class ExprMixin(object):
           continue
         lo = vals[0] if lo_n else None
         hi = vals[-1] if hi_n else None
+        if getattr(self, 'mode', 'vc') == 'event' and (isinstance(base, VBound) or isinstance(base, VRef) and base.ty.kind in ('any', 'opt', 'union', 'callable')):
+          # slicing an opaque container: an observable action of that object (bounds are its arguments)
+          yield from self.call_opaque(VBound(base, '__getitem__slice'), [VNone if lo is None else lo, VNone if hi is None else hi], {}, st2)
+          continue
         yield st2, self.slice_seq(base, lo, hi, st2)
 
   def slice_seq(self, base, lo, hi, st):
@@ -428,6 +432,11 @@ class ExprMixin(object):
         if q is not None:
           yield from self.call_qualified(q, [a, b], {}, st1, self_val=a)
           continue
+      if getattr(self, 'mode', 'vc') == 'event' and isinstance(n.op, ast.Add) and not any(isinstance(x, VStr) for x in (a, b)) and any(
+          isinstance(x, VBound) or isinstance(x, VRef) and x.ty.kind in ('any', 'callable') for x in (a, b)):
+        # + applied to an opaque object (sequence concatenation): that object's __add__/__radd__, an observable action
+        yield from self.call_opaque(None, [a, b], {}, st1, label='operator.' + type(n.op).__name__)
+        continue
       yield st1, self.binop(n.op, a, b, st1)
 
   def ev_Lambda(self, n, st):
